@@ -195,4 +195,39 @@ def statCalc (k : StatKind) (a : Arr α) : Except StatErr (StatVal α) :=
   | .theta => needDim a 1 (.val (statTheta a.data))
 
 end
+/-! ## `sfs stat` command line (`cli/src/stat.rs`, `stat/runner.rs`) -/
+
+/-- `Statistic::header_name`. -/
+def StatKind.headerName : StatKind → String
+  | .dFuLi => "d_fu_li" | .dTajima => "d_tajima" | .f2 => "f2" | .f3 => "f3" | .f4 => "f4" | .fst => "fst" | .pi => "pi"
+  | .piXY => "pi_xy" | .king => "king" | .r0 => "r0" | .r1 => "r1" | .s => "segregating_sites" | .sum => "sum" | .theta => "theta"
+
+/-- What `sfs stat` does after the spectrum was read. -/
+inductive StatCliOut (α : Type) where
+  /-- the number of precision specifiers is neither one nor the number of statistics: a clap-formatted usage error returned as an ordinary error (exit status 1), nothing printed -/
+  | usage
+  /-- a statistic failed (exit status 1); the header row, if requested, was already written -/
+  | failed (header : Option String) (e : StatErr)
+  /-- one row: the values in the order requested, each with its precision -/
+  | done (header : Option String) (row : List (StatVal α × Nat))
+
+section
+variable {α : Type} [Add α] [Sub α] [Mul α] [Div α] [NatCast α] [OfNat α 0] [OfNat α 1]
+
+/-- `Stat::run` + `Runner::run`: pair statistics with precisions (one for all, or one each), write the header row first if
+    requested, then compute every statistic (the first failure aborts), then write the row. -/
+def statCli (kinds : List StatKind) (precisions : List Nat) (header : Bool) (delim : Char) (a : Arr α) : StatCliOut α :=
+  let ps? : Option (List Nat) := match precisions with
+    | [p] => some (kinds.map (fun _ => p))
+    | ps => if ps.length = kinds.length then some ps else none
+  match ps? with
+  | none => .usage
+  | some ps =>
+    let hdr := if header then some (String.intercalate (String.singleton delim) (kinds.map StatKind.headerName)) else none
+    match kinds.mapM (fun k => statCalc k a) with
+    | .error e => .failed hdr e
+    | .ok vs => .done hdr (vs.zip ps)
+
+end
+
 end Sfs
